@@ -205,8 +205,36 @@ Proof.
         (split; [reflexivity|]); eexists; (split; [reflexivity|]); discriminate.
 Qed.
 
+(* the task has seen the end of the stream where the open pipe would have said Pending: it is
+   finished, (1) with a failure, or (2) it was reading application data and has delivered what it
+   had read so far with a clean EOF, or (3) it was still expecting the confirmation of an
+   optimistic negotiation and reports a read error; in (2) and (3) the result it had is kept *)
 Definition diverged (ta t : task) : Prop :=
-  t_ph ta = TDone /\ (t_res ta = t_res t \/ fst (t_res ta) <> 0).
+  t_ph ta = TDone /\
+  (fst (t_res ta) <> 0 \/
+   (t_res ta = t_res t /\ exists acc, t_ph t = TRead NCompleted acc /\ t_got ta = acc /\ t_end ta = 0) \/
+   (t_res ta = t_res t /\ t_end ta <> 0 /\ exists g acc, t_ph t = TRead g acc /\ g <> NCompleted)).
+
+Lemma io_code_nonzero : forall c, c <> 0 -> io_code c <> 0.
+Proof.
+  intros c H. unfold io_code.
+  destruct (c =? C_FAILED); [discriminate|]. destruct (c =? C_IO_EOF); [discriminate|].
+  destruct (c =? 0) eqn:E; [apply N.eqb_eq in E; contradiction | discriminate].
+Qed.
+
+Lemma neg_poll_pending_state : forall fuel g pin pout g1 pi1 po1,
+  neg_poll fuel g pin pout = (g1, pi1, po1, PPending) -> g <> NCompleted -> g1 <> NCompleted.
+Proof.
+  induction fuel as [|f IH]; intros g pin pout g1 pi1 po1 H Hg; [cbn in H; congruence|].
+  cbn [neg_poll] in H. destruct g as [|st wbuf p hdr|]; [contradiction| |discriminate].
+  destruct (wr_drain (wr_fuel wbuf) wbuf pout) as [[w1 poa] ok]. destruct ok; cbn [negb] in H;
+    [|injection H as <- _ _; discriminate].
+  destruct (msg_poll st pin) as [[sa pa] ra]. destruct ra as [| |m|c]; try discriminate.
+  - injection H as <- _ _. discriminate.
+  - destruct m as [|q| |ps|]; try discriminate.
+    + destruct hdr; [|discriminate]. apply (IH _ _ _ _ _ _ H). discriminate.
+    + destruct (name_eqb q p); discriminate.
+Qed.
 
 Ltac t_same H := injection H as <- <- <-; do 3 eexists; split; [reflexivity | left; auto].
 
@@ -231,7 +259,7 @@ Proof.
                 [exact (IH _ _ _ _ _ _ H) | t_same H].
            ++ exact (IH _ _ _ _ _ _ H).
         -- injection H as <- <- <-. do 3 eexists. split; [reflexivity|]. right.
-           split; [reflexivity|]. right. exact Hc.
+           split; [reflexivity|]. left. exact Hc.
       * replace (l_fuel (pipe_close pin)) with (l_fuel pin) by reflexivity.
         destruct (l_poll (l_fuel pin) l pin pout) as [[[la pa] poa] ra] eqn:Ed.
         destruct (l_poll_closed _ _ _ _ _ _ _ _ Ed) as (l' & r' & Ec & Hr). rewrite Ec.
@@ -241,7 +269,7 @@ Proof.
                 [exact (IH _ _ _ _ _ _ H) | t_same H].
            ++ exact (IH _ _ _ _ _ _ H).
         -- injection H as <- <- <-. do 3 eexists. split; [reflexivity|]. right.
-           split; [reflexivity|]. right. exact Hc.
+           split; [reflexivity|]. left. exact Hc.
     + (* writing the payload: the inbound pipe is not touched *)
       destruct rem as [|b rem]; [exact (IH _ _ _ _ _ _ H)|].
       destruct g as [|st wbuf p hdr|].
@@ -269,21 +297,25 @@ Proof.
                    | PErr c => (mkTask TDone (t_payload t) (t_res t) acc (io_code c), pi1, po1)
                    end) = (t1', pi1', po1') /\
                   ((t1' = t1 /\ pi1' = pipe_close pi1 /\ po1' = po1) \/ diverged t1' t1)).
-      { intros g' _ H'.
+      { intros g' Hg' H'.
         replace (neg_fuel (pipe_close pin)) with (neg_fuel pin) by reflexivity.
         destruct (neg_poll (neg_fuel pin) g' pin pout) as [[[ga pa] poa] ra] eqn:En.
         destruct (neg_poll_closed _ _ _ _ _ _ _ _ En) as (g'' & r' & Ec & Hr). rewrite Ec.
         destruct Hr as [[-> ->] | (-> & c & -> & Hc)].
         - destruct ra as [| |c]; [t_same H' | exact (IH _ _ _ _ _ _ H') | t_same H'].
         - injection H' as <- <- <-. do 3 eexists. split; [reflexivity|]. right.
-          split; [reflexivity|]. left. reflexivity. }
+          split; [reflexivity|]. right. right. split; [reflexivity|].
+          split; [cbn [t_end]; apply io_code_nonzero; exact Hc|].
+          exists ga, acc. split; [reflexivity|]. exact (neg_poll_pending_state _ _ _ _ _ _ _ En Hg'). }
       destruct g as [|st wbuf p hdr|].
       * destruct (pipe_read pin READ_CHUNK) as [pa ra] eqn:Er.
         destruct (pipe_read_closed _ _ _ _ Er) as [Ec | (Hb & -> & Ec)]; rewrite Ec.
         -- destruct ra as [| |bs]; [t_same H | t_same H | exact (IH _ _ _ _ _ _ H)].
         -- unfold pipe_read in Er. rewrite Hb in Er.
-           destruct (p_closed pin); injection Er as <-; injection H as <- <- <-;
-             do 3 eexists; (split; [reflexivity|]); right; (split; [reflexivity|]); left; reflexivity.
+           destruct (p_closed pin) eqn:Ecl; injection Er as <-; injection H as <- <- <-.
+           ++ do 3 eexists. split; [reflexivity|]. left. auto.
+           ++ do 3 eexists. split; [reflexivity|]. right. split; [reflexivity|]. right. left.
+              split; [reflexivity|]. exists acc. auto.
       * apply Hneg; [discriminate | exact H].
       * apply Hneg; [discriminate | exact H].
     + t_same H.
@@ -299,23 +331,30 @@ Proof.
     rewrite (t_poll_done _ _ _ _ H); reflexivity.
 Qed.
 
+Lemma poll_true_d : forall s, s_d (poll_side true s) = s_d s.
+Proof. intros s. unfold poll_side. destruct (t_poll _ _ _ _) as [[t1 pi1] po1]. reflexivity. Qed.
+
+Lemma poll_false_l : forall s, s_l (poll_side false s) = s_l s.
+Proof. intros s. unfold poll_side. destruct (t_poll _ _ _ _) as [[t1 pi1] po1]. reflexivity. Qed.
+
 (* sa: the state of the timed run; s: a state of the plain system. Either they are equal (no
-   timer has fired), or one side was aborted by its timer (finished with a failure) and the other
-   side either still moves in lock-step with the plain run - seeing the same bytes on a pipe that
-   is now closed - or has observed the end of the stream and finished. *)
+   timer has fired), or one side was aborted by its timer (finished with a failure; in the plain
+   state it is frozen in its negotiation) and the other side either still moves in lock-step
+   with the plain run - seeing the same bytes on a pipe that is now closed - or has observed the
+   end of the stream and finished. *)
 Inductive TRel (sa s : sys) : Prop :=
 | TR_same : sa = s -> TRel sa s
-| TR_dab : t_ph (s_d sa) = TDone -> fst (t_res (s_d sa)) <> 0 ->
+| TR_dab : t_ph (s_d sa) = TDone -> fst (t_res (s_d sa)) <> 0 -> in_neg (s_d s) = true ->
     ((s_l sa = s_l s /\ s_dl sa = pipe_close (s_dl s) /\ s_ld sa = s_ld s) \/ diverged (s_l sa) (s_l s)) ->
     TRel sa s
-| TR_lab : t_ph (s_l sa) = TDone -> fst (t_res (s_l sa)) <> 0 ->
+| TR_lab : t_ph (s_l sa) = TDone -> fst (t_res (s_l sa)) <> 0 -> in_neg (s_l s) = true ->
     ((s_d sa = s_d s /\ s_ld sa = pipe_close (s_ld s) /\ s_dl sa = s_dl s) \/ diverged (s_d sa) (s_d s)) ->
     TRel sa s.
 
 Lemma poll_rel : forall who sa s, TRel sa s ->
   exists s', (s' = s \/ s' = poll_side who s) /\ TRel (poll_side who sa) s'.
 Proof.
-  intros who sa s H. destruct H as [-> | Hd Hr Hl | Hl Hr Hd].
+  intros who sa s H. destruct H as [-> | Hd Hr Hn Hl | Hl Hr Hn Hd].
   - exists (poll_side who s). split; [right; reflexivity | apply TR_same; reflexivity].
   - destruct who.
     + destruct Hl as [(E1 & E2 & E3) | Hdiv].
@@ -325,7 +364,7 @@ Proof.
         replace (t_fuel tl (pipe_close dl)) with (t_fuel tl dl) by reflexivity.
         destruct (t_poll (t_fuel tl dl) tl dl ld) as [[t1 pi1] po1] eqn:Et.
         destruct (t_poll_closed _ _ _ _ _ _ _ Et) as (t1' & pi1' & po1' & Ec & Hc). rewrite Ec.
-        apply TR_dab; cbn [s_d s_l s_dl s_ld]; [exact Hd | exact Hr|].
+        apply TR_dab; cbn [s_d s_l s_dl s_ld]; [exact Hd | exact Hr | exact Hn|].
         destruct Hc as [(-> & -> & ->) | Hdv]; [left; auto | right; exact Hdv].
       * exists s. split; [left; reflexivity|].
         rewrite (poll_side_done true sa) by (exact (proj1 Hdiv)).
@@ -342,7 +381,7 @@ Proof.
         replace (t_fuel td (pipe_close ld)) with (t_fuel td ld) by reflexivity.
         destruct (t_poll (t_fuel td ld) td ld dl) as [[t1 pi1] po1] eqn:Et.
         destruct (t_poll_closed _ _ _ _ _ _ _ Et) as (t1' & pi1' & po1' & Ec & Hc). rewrite Ec.
-        apply TR_lab; cbn [s_d s_l s_dl s_ld]; [exact Hl | exact Hr|].
+        apply TR_lab; cbn [s_d s_l s_dl s_ld]; [exact Hl | exact Hr | exact Hn|].
         destruct Hc as [(-> & -> & ->) | Hdv]; [left; auto | right; exact Hdv].
       * exists s. split; [left; reflexivity|].
         rewrite (poll_side_done false sa) by (exact (proj1 Hdiv)).
@@ -357,14 +396,14 @@ Lemma abort_rel : forall who sa s, TRel sa s -> in_neg (side_task who sa) = true
 Proof.
   intros who sa s H Hn. pose proof (in_neg_not_done _ Hn) as Hnd.
   assert (H9 : fst (C_TIMEOUT, 0) <> 0) by (cbn; discriminate).
-  destruct H as [-> | Hd Hr Hl | Hl Hr Hd]; destruct who; cbn [side_task] in Hnd;
+  destruct H as [-> | Hd Hr Hns Hl | Hl Hr Hns Hd]; destruct who; cbn [side_task] in Hnd, Hn;
     unfold abort_side; try contradiction.
   - apply TR_lab; cbn [s_d s_l s_dl s_ld timed_out t_ph t_res]; auto.
   - apply TR_dab; cbn [s_d s_l s_dl s_ld timed_out t_ph t_res]; auto.
   - apply TR_dab; cbn [s_d s_l s_dl s_ld timed_out t_ph t_res]; auto.
-    right. split; [reflexivity | right; exact H9].
+    right. split; [reflexivity | left; exact H9].
   - apply TR_lab; cbn [s_d s_l s_dl s_ld timed_out t_ph t_res]; auto.
-    right. split; [reflexivity | right; exact H9].
+    right. split; [reflexivity | left; exact H9].
 Qed.
 
 Lemma tstep_rel : forall to_d to_l S e s, TRel (ts_sys S) s ->
@@ -398,6 +437,13 @@ Proof.
   apply (G es (tinit c) []). apply TR_same. reflexivity.
 Qed.
 
+(* a task that has diverged keeps the result of its plain counterpart, unless it failed *)
+Lemma diverged_res : forall ta t i, diverged ta t -> t_res ta = (0, i) -> t_res t = (0, i).
+Proof.
+  intros ta t i (_ & [Hne | [(E & _) | (E & _)]]) H; [|congruence|congruence].
+  rewrite H in Hne. cbn in Hne. contradiction.
+Qed.
+
 (* SAFETY under timeouts: whatever the timeouts and however polls and clock ticks interleave, a
    side that reports success reports the dialer's first supported name, at its exact index *)
 Theorem timed_dialer_result : forall c to_d to_l es, wf_case c ->
@@ -407,10 +453,9 @@ Proof.
   intros c to_d to_l es Hc i Hres.
   destruct (timed_shadow c to_d to_l es) as (who & H).
   apply (dialer_ok_result c who Hc i).
-  destruct H as [<- | Hd Hr Hl | Hl Hr Hd]; [exact Hres | |].
+  destruct H as [<- | Hd Hr _ Hl | Hl Hr _ Hd]; [exact Hres | |].
   - rewrite Hres in Hr. cbn in Hr. contradiction.
-  - destruct Hd as [(<- & _) | (_ & [<- | Hne])]; [exact Hres | exact Hres|].
-    rewrite Hres in Hne. cbn in Hne. contradiction.
+  - destruct Hd as [(<- & _) | Hdv]; [exact Hres | exact (diverged_res _ _ _ Hdv Hres)].
 Qed.
 
 Theorem timed_listener_result : forall c to_d to_l es, wf_case c ->
@@ -420,9 +465,8 @@ Proof.
   intros c to_d to_l es Hc j Hres.
   destruct (timed_shadow c to_d to_l es) as (who & H).
   apply (listener_ok_result c who Hc j).
-  destruct H as [<- | Hd Hr Hl | Hl Hr Hd]; [exact Hres | |].
-  - destruct Hl as [(<- & _) | (_ & [<- | Hne])]; [exact Hres | exact Hres|].
-    rewrite Hres in Hne. cbn in Hne. contradiction.
+  destruct H as [<- | Hd Hr _ Hl | Hl Hr _ Hd]; [exact Hres | |].
+  - destruct Hl as [(<- & _) | Hdv]; [exact Hres | exact (diverged_res _ _ _ Hdv Hres)].
   - rewrite Hres in Hr. cbn in Hr. contradiction.
 Qed.
 
@@ -435,7 +479,7 @@ Theorem timed_both_ok_plain : forall c to_d to_l es,
 Proof.
   intros c to_d to_l es sa Hd Hl.
   destruct (timed_shadow c to_d to_l es) as (who & H). fold sa in H.
-  exists who. destruct H as [E | _ Hr _ | _ Hr _]; [exact E | contradiction | contradiction].
+  exists who. destruct H as [E | _ Hr _ _ | _ Hr _ _]; [exact E | contradiction | contradiction].
 Qed.
 
 (* ------------------------------------------------------------------ 3. termination under timeouts *)
@@ -515,12 +559,6 @@ Proof.
   destruct (t_poll (t_fuel td ld) td ld dl) as [[t1 pi1] po1] eqn:Et.
   destruct (d_task_work _ _ _ _ _ _ _ Hd Et) as (_ & (_ & F2 & _) & _). exact F2.
 Qed.
-
-Lemma poll_true_d : forall s, s_d (poll_side true s) = s_d s.
-Proof. intros s. unfold poll_side. destruct (t_poll _ _ _ _) as [[t1 pi1] po1]. reflexivity. Qed.
-
-Lemma poll_false_l : forall s, s_l (poll_side false s) = s_l s.
-Proof. intros s. unfold poll_side. destruct (t_poll _ _ _ _) as [[t1 pi1] po1]. reflexivity. Qed.
 
 Lemma TInv_poll : forall who s, WfS s -> TInv s -> TInv (poll_side who s).
 Proof.
